@@ -10,6 +10,9 @@
 //!   R:j:<hexkey>      remove from object slot j into a new slot
 //!   S:<hexstream>     open a Deserializer over the stream; V:<hexdoc>:<first> its next value; E close
 //!   F:<first>         the next value of the stream is malformed (a lone `]`): the attempt fails
+//!   X:<hexdoc>        `from_slice::<Value>` of a text that is rejected — at once, or only AFTER the padded parse has built its
+//!                     tree (invalid UTF-8 inside a string, a string closed by the padding, trailing characters): the arena of
+//!                     the attempt is created and released by this step
 //! output: per step `shape shape ..|released arenas` joined by `;`, then ` content=.. leak=.. arenas=..`
 //! case: `c16 x <hexdoc> <threads> <iters>`  concurrent stress; output `ok` or a description
 use crate::c18::{tracked, LIVE};
@@ -281,6 +284,13 @@ pub fn run_history_mode(threaded: bool, streamed: bool, prog: &str) -> String {
                 },
                 None => ok = false,
             },
+            "X" => {
+                let doc = unhex(p[1]);
+                match tracked(|| sonic_rs::from_slice::<Value>(&doc).map(drop).map_err(drop)) {
+                    Ok(()) => ok = false,
+                    Err(()) => {}
+                }
+            }
             "E" => {
                 // a Deserializer is not Send: it is dropped where it was made
                 let d = de.take();
@@ -475,6 +485,24 @@ fn gen_doc_small(r: &mut Rng, depth: usize, out: &mut String) {
     }
 }
 
+/// texts `from_slice::<Value>` rejects: at once; after the padded parse built a tree (invalid UTF-8 in a string or a key, a
+/// string that only the padding closes, trailing characters); static and non-static roots
+const REJECTED: &[&[u8]] = &[
+    b"]",
+    b"[1,",
+    b"\"a\xffb\"",
+    b"[\"a\xffb\",1]",
+    b"{\"k\":\"\xfe\"}",
+    b"{\"\xff\":[1,\"x\"]}",
+    b"\"abc",
+    b"\"abc\\u00e9",
+    b"[1,\"a\"] x",
+    b"{\"a\":[\"b\"]} ]",
+    b"\"s\" 1",
+    b"1 \xff",
+    b"[[\"deep\",[\"er\"]],{\"k\":\"\xc3\"}]",
+];
+
 /// one random history (ops are chosen by looking at the real values, so that they apply)
 fn gen_history(r: &mut Rng, len: usize, allow_de: bool) -> String {
     let mut slots: Vec<Value> = Vec::new();
@@ -498,6 +526,10 @@ fn gen_history(r: &mut Rng, len: usize, allow_de: bool) -> String {
             let d = pick_doc(r);
             slots.push(sonic_rs::from_str(&d).unwrap());
             ops.push(format!("P:{}", hex(d.as_bytes())));
+            continue;
+        }
+        if c == 19 && r.chance(1, 2) {
+            ops.push(format!("X:{}", hex(*r.pick(REJECTED))));
             continue;
         }
         let i = r.below(n);
@@ -659,6 +691,12 @@ pub fn gen(seed: u64, thorough: bool) {
         // a malformed value in the middle of a stream: the values before it stay intact, the ones after it are independent
         format!("S:{};V:{d1}:1;V:{d2}:0;F:0;V:{d1}:0;H:1:0:{};E;D:0;D:0;D:0;D:0", h("[1,\"a\",[2,\"b\"]] {\"a\":[1,\"x\"],\"b\":{\"c\":\"y\"},\"d\":2} ] [1,\"a\",[2,\"b\"]]"), h("a")),
         format!("S:{};F:1;F:1;E", h("] [1]")),
+        // rejected only after the padded parse has built its tree: the tree and its arena are released by the failing call
+        format!("X:{};X:{};X:{};X:{}", hex(b"\"a\xffb\""), hex(b"\"abc"), hex(b"[1,\"a\"] x"), hex(b"]")),
+        format!("P:{d1};X:{};C:0;X:{};D:0;X:{};D:0", hex(b"[\"a\xffb\",1]"), hex(b"{\"k\":\"\xfe\"}"), hex(b"\"abc\\u00e9")),
+        format!("S:{};F:1;E", hex(b"[\"a\xffb\",1]")),
+        format!("S:{};F:1;E", hex(b"\"abc")),
+        format!("P:{d2};S:{};F:1;C:0;E;D:0;D:0", hex(b"{\"k\":\"\xfe\"} [1]")),
     ] {
         out.line(&format!("c16 s {f}"));
         out.line(&format!("c16 t {f}"));
